@@ -63,6 +63,10 @@ def assigned_names(stmts, indirect=None):
         def visit_Lambda(self, n):
             pass
 
+        def visit_Yield(self, n):
+            names.add('_yielded')
+            self.generic_visit(n)
+
         def visit_Assign(self, n):
             for t in n.targets:
                 tgt(t)
@@ -169,12 +173,29 @@ class StmtMixin:
     def ex_Expr(self, s, st, fr):
         if isinstance(s.value, ast.Constant):
             return [(st, NEXT)]       # docstring (dropped by extraction)
+        if isinstance(s.value, ast.Yield):
+            return self.do_yield(s, st, fr, s.value.value)
         if self.is_log_call(s.value):
             self.stats['dropped'].add('logging call')
             return [(st, NEXT)]
         outs = []
         for s2, v in self.ev(s.value, st, fr):
             outs.append(self.exc_out(s2, v) if is_exc(v) else (s2, NEXT))
+        return outs
+
+    def do_yield(self, s, st, fr, value_expr):
+        outs = []
+        for s2, v in self.ev(value_expr, st, fr):
+            if is_exc(v):
+                outs.append(self.exc_out(s2, v))
+                continue
+            lst = s2.env.get('_yielded')
+            if lst is None:
+                raise CheckerError('yield in %s: declare the element kind as types["_yielded"]' % fr.qual)
+            if isinstance(v, TupleVal):
+                v = self.coerce_to(s2, v, lst.kind.elem)
+            s2.env['_yielded'] = ops.list_append(lst, self.coerce_to(s2, v, lst.kind.elem))
+            outs.append((s2, NEXT))
         return outs
 
     def is_log_call(self, e):
